@@ -61,6 +61,21 @@ Verdict(st, c) ==
     ELSE IF c.cbs # st.cbs THEN <<"callbacks", c.cbs>>
     ELSE <<"">>
 
+\* every clause on which the logged step differs (the validation goes on from the specification's own state after a
+\* mismatch, so that all the ways in which a run deviates are reported, not only the first)
+NoMd(dl) == [i \in 1 .. Len(dl) |-> <<dl[i][1], dl[i][2], dl[i][3]>>]
+NoMdE(el) == [i \in 1 .. Len(el) |-> <<el[i][1], el[i][2]>>]
+AllClauses(st, c) ==
+    (IF (c.fail \/ c.soft) # st.raised THEN <<"raised">> ELSE <<>>)
+    \o (IF NoMd(Strip(c.dlog, Len(dlog))) # NoMd(st.dlog) THEN <<"deliveries">>
+        ELSE IF Strip(c.dlog, Len(dlog)) # st.dlog THEN <<"deliveries_md">> ELSE <<>>)
+    \o (IF NoMdE(New(c.elog, Len(elog))) # NoMdE(st.elog) THEN <<"emissions">>
+        ELSE IF New(c.elog, Len(elog)) # st.elog THEN <<"emissions_md">> ELSE <<>>)
+    \o (IF \E n \in 1 .. Len(prog) : n \notin ToSet(st.opq) /\ c.nst[n] # FixState(prog[n], st.nst[n]) THEN <<"node_state">> ELSE <<>>)
+    \o (IF c.downs # st.downs THEN <<"links">> ELSE <<>>)
+    \o (IF \E t \in Tags : c.rc[t] # st.rc[t + 1] THEN <<"refcounts">> ELSE <<>>)
+    \o (IF c.cbs # st.cbs THEN <<"callbacks">> ELSE <<>>)
+
 \* the property invariants of SyncFlow, evaluated in the current state; "" if all hold
 InvVerdict ==
     IF ~NodeContracts THEN "NodeContracts"
@@ -78,16 +93,15 @@ InvVerdict ==
 \* One step: first the invariants of the state reached so far, then the next logged call.
 \* After the last call one more step evaluates the invariants of the final state.
 TraceNext ==
-    /\ bad = <<>>
     /\ l <= Len(Steps) + 1
     /\ LET iv == InvVerdict IN
-       IF iv # "" THEN
+       IF iv # "" /\ bad = <<>> THEN
           /\ PrintT(<<"REJECT", Traces[tid].id, l - 1, iv>>)
           /\ bad' = <<l - 1, iv>>
           /\ UNCHANGED vars
        ELSE IF l = Len(Steps) + 1 THEN
-          /\ PrintT(<<"ACCEPT", Traces[tid].id>>)
-          /\ bad' = <<>>
+          /\ ((bad # <<>>) \/ PrintT(<<"ACCEPT", Traces[tid].id>>))
+          /\ bad' = bad
           /\ UNCHANGED vars
        ELSE
           LET st == Steps[l]
@@ -99,8 +113,11 @@ TraceNext ==
           IN /\ Commit(c)
              /\ flushes' = IF st.ev = "flush" THEN Append(flushes, <<st.e, Len(dlog), calls + 1>>) ELSE flushes
              /\ nfail' = nfail + Len(st.failAt)
-             /\ bad' = IF v = "" THEN <<>> ELSE <<l, v>>
-             /\ IF v # "" THEN PrintT(<<"REJECT", Traces[tid].id, l, v>>) /\ PrintT(<<"EXPECTED", Traces[tid].id, ToJson(vv)>>)
+             /\ bad' = IF v = "" THEN bad ELSE <<l, v>>
+             /\ IF v # ""
+                THEN (PrintT(<<"REJECT", Traces[tid].id, l, v>>)
+                      /\ ((bad # <<>>) \/ PrintT(<<"EXPECTED", Traces[tid].id, ToJson(vv)>>))
+                      /\ PrintT(<<"CLAUSES", Traces[tid].id, l, AllClauses(st, c)>>))
                 ELSE TRUE
              /\ UNCHANGED prog
     /\ l' = l + 1
